@@ -386,6 +386,28 @@ func (t *tr) evSliceExpr(x *ast.SliceExpr) Term {
 		r := app("substr", SStr, a, lo, hi)
 		r.T = XT
 		return r
+	case *types.Array:
+		// slicing an addressable array: the slice aliases the array. We over-approximate: the slice refers to a
+		// fresh backing array with unknown contents, and the array variable's contents become unknown as well.
+		n := intLit(u.Len())
+		if x.High != nil {
+			hi = t.ev(x.High)
+		} else {
+			hi = n
+		}
+		t.safety(and(le(intLit(0), lo), le(lo, hi), le(hi, n)), "safety/slice", x.Pos(), "array slice bounds out of range")
+		arr := t.alloc()
+		if id, ok := ast.Unparen(x.X).(*ast.Ident); ok {
+			if o, ok := t.info.ObjectOf(id).(*types.Var); ok {
+				if lv, ok := t.vars[o]; ok {
+					t.fresh(lv)
+				}
+			}
+		}
+		t.V.note("slice of a local array: contents over-approximated as unknown")
+		r := mkSlice(arr, lo, sub(hi, lo), sub(n, lo))
+		r.T = t.typeOf(x)
+		return r
 	case *types.Pointer:
 		// pointer to array: p[lo:hi] — arrays behind pointers are modelled as one heap cell; produce an opaque slice
 		_ = u
